@@ -120,11 +120,30 @@ def candidates(sc):
             c = copy.deepcopy(sc)
             del c["ops"][n - cut:]
             yield c
+    # 1a. a whole instance (its construction and everything addressed to it)
+    insts = []
+    for o in ops:
+        if o.get("inst") is not None and o["inst"] not in insts:
+            insts.append(o["inst"])
+    if len(insts) > 1:
+        for tag in reversed(insts):
+            c = sc
+            for i in range(n - 1, -1, -1):
+                o = ops[i]
+                if o.get("inst") == tag or o.get("as") == tag or o.get("from") == tag:
+                    c = drop_op(c, i)
+            if len(c["ops"]) < n:
+                c = copy.deepcopy(c)
+                if "insts" in c:
+                    c["insts"] = [t for t in c["insts"] if t != tag]
+                yield c
     for i in range(n - 1, -1, -1):
         op = ops[i]
-        if op["op"] in ("new", "define"):
-            used = any(o.get("inst") == op.get("inst") for o in ops[i + 1:]) if op["op"] == "new" else True
-            if used:
+        if op["op"] == "new":
+            if any(o.get("inst") == op.get("inst") or o.get("from") == op.get("inst") for o in ops[i + 1:]):
+                continue
+        if op["op"] == "define":
+            if any(o["op"] == "new" and o.get("prog") == op["prog"] for o in ops[i + 1:]):
                 continue
         yield drop_op(sc, i)
     # 2. behaviours
